@@ -38,6 +38,49 @@ pub(crate) mod verif_data {
         }
     }
 
+    pub(crate) fn body_get_key_array(n: usize) {
+        let e: [u64; 3] = [kani::any(), kani::any(), kani::any()];
+        let mut v: Vec<Value> = Vec::with_capacity(3);
+        if n > 0 {
+            v.push(Value::Number(serde_json::Number::from(e[0])));
+        }
+        if n > 1 {
+            v.push(Value::Number(serde_json::Number::from(e[1])));
+        }
+        if n > 2 {
+            v.push(Value::Number(serde_json::Number::from(e[2])));
+        }
+        let data = MD::new(Value::Array(v));
+        let idx: i64 = kani::any();
+        #[cfg(verif_replay)]
+        eprintln!("REPLAY-INPUT: get_key({}, {})", &*data, idx);
+        let r = MD::new(get_key(&data, KeyType::Number(idx)));
+        kani::cover!(true, "returned");
+        match spec_get_index(n, idx) {
+            Some(k) => assert!(matches!(&*r, Some(Value::Number(x)) if x.as_u64() == Some(e[k])), "var on an array: wrong element for the index"),
+            None => assert!(r.is_none(), "var on an array: an out-of-range index is absent"),
+        }
+    }
+    macro_rules! get_key_array_harness {
+        ($name:ident, $n:expr) => {
+            #[cfg_attr(kani, kani::proof)]
+            #[cfg_attr(kani, kani::unwind(5))]
+            #[cfg_attr(kani, kani::stub(<serde_json::Value as std::clone::Clone>::clone, crate::verif_support::value_clone_shallow))]
+            pub(crate) fn $name() {
+                body_get_key_array($n);
+            }
+        };
+    }
+    //@ob name=C11.get_key.array0 harness=k_c11_get_key_array0 props=C11,C01 strength=bounded bound="the empty array; EVERY i64 index" fns=op::data::get_key,op::data::get replay=generic stubs=1 timeout=200 cutdrop=2
+    //@ desc="get_key([], i) is absent for every i64"
+    get_key_array_harness!(k_c11_get_key_array0, 0);
+    //@ob name=C11.get_key.array2 harness=k_c11_get_key_array2 props=C11,C01 strength=bounded bound="array data of 2 symbolic numbers; EVERY i64 index" fns=op::data::get_key,op::data::get replay=generic stubs=1 timeout=200 cutdrop=2
+    //@ desc="get_key(array, integer i) is the element counted from the front (i >= 0) or from the end (i < 0), absent when out of range - for every i64"
+    get_key_array_harness!(k_c11_get_key_array2, 2);
+    //@ob name=C11.get_key.array3 harness=k_c11_get_key_array3 props=C11,C01 tier=thorough strength=bounded bound="array data of 3 symbolic numbers; EVERY i64 index" fns=op::data::get_key,op::data::get replay=generic stubs=1 timeout=200 cutdrop=2
+    //@ desc="get_key(array of 3, integer i), every i64"
+    get_key_array_harness!(k_c11_get_key_array3, 3);
+
     // =====================================================================================
     // C11 / C12 / C04: var, missing, missing_some with the lookup `get_key` by contract.
     // Abstract presence function over the key alphabet {"a","b","c", any integer}: PRESENT[i] says
